@@ -149,6 +149,8 @@ structure Outcome where
   plots       : Bool    -- …/plots/*.gp exist
   result      : Bool    -- …/result.js and index.html exist
   uploaded    : Bool    -- an upload was attempted
+  playFailed  : Bool    -- the play (or the writing of its plots) failed: what decides the fate of the artifacts
+  uploadedArtifacts : Bool   -- the artifacts were still there when the upload tool ran
 deriving DecidableEq, Repr
 
 def removeAll (f : Flags) : Bool := f.clear || f.upload
@@ -160,13 +162,28 @@ def runEnd (f : Flags) (e : Faults) : Outcome :=
   let err0 := e.play
   let foul := err0
   let err1 := err0 || (!f.skipPlot && e.plot)
-  let artifacts5 := !(!err1 && !removeAll f && !f.k)
+  -- (since the repair the artifacts are also erased when an upload follows: the manual erases them, step 4, before
+  -- the upload, step 5; with `--clear` alone the whole directory goes a moment later anyway)
+  let artifacts5 := !(!err1 && !f.k && (!removeAll f || f.upload))
   let doUpload := (!err1 || !e.interrupted) && f.upload
   let err2 := err1 || (doUpload && e.upload)
   let runDir := !(!err2 && removeAll f)
   { exitNonZero := err2, foulFlag := foul, runDir := runDir,
     artifacts := artifacts5 && runDir, plots := !f.skipPlot && !e.plot && runDir,
-    result := runDir, uploaded := doUpload }
+    result := runDir, uploaded := doUpload, playFailed := err1, uploadedArtifacts := doUpload && artifacts5 }
+
+/-- `run()` before the repair: the artifacts were kept whenever the run directory was going to be erased — also
+when an upload came first -/
+def runEndOld (f : Flags) (e : Faults) : Outcome :=
+  let err0 := e.play
+  let err1 := err0 || (!f.skipPlot && e.plot)
+  let artifacts5 := !(!err1 && !removeAll f && !f.k)
+  let doUpload := (!err1 || !e.interrupted) && f.upload
+  let err2 := err1 || (doUpload && e.upload)
+  let runDir := !(!err2 && removeAll f)
+  { exitNonZero := err2, foulFlag := err0, runDir := runDir,
+    artifacts := artifacts5 && runDir, plots := !f.skipPlot && !e.plot && runDir,
+    result := runDir, uploaded := doUpload, playFailed := err1, uploadedArtifacts := doUpload && artifacts5 }
 
 /-! ## Time range -/
 
@@ -197,8 +214,8 @@ def rangeSpec (sec : Int) (ts : List Int) (lo hi : Int) : Bool :=
   ts.all (fun t => lo ≤ t && t ≤ hi) && decide (lo ≤ 0) && decide (lo + sec ≤ hi)
 
 /-- the specification of what is left on disk, in terms of the exit status -/
-def surviveSpec (f : Flags) (failed : Bool) (artifacts runDir : Bool) : Bool :=
-  (artifacts == ((failed || f.k) && !(removeAll f && !failed))) &&
+def surviveSpec (f : Flags) (playFailed failed : Bool) (artifacts runDir : Bool) : Bool :=
+  (artifacts == ((playFailed || f.k) && !(removeAll f && !failed))) &&
   (runDir == !(removeAll f && !failed))
 
 end Shk.Paths
